@@ -5,7 +5,8 @@ import json, math
 from .common import use_repo
 
 TABS = {"A": [[0.0, 0.0], [10.0, 10.0]], "B": [[0.0, 10.0], [10.0, 10.0]], "C": [[0.0, 0.0], [10.0, 20.0]], "D": [[0.0, 4.0], [10.0, 24.0]]}
-RS = {"r0": (0.0, 4.0, 1.0), "r1": (1.0, 3.0, 0.5), "r2": (0.0, 2.0, 0.25), "r3": (2.0, 6.0, 2.0)}
+# the base model starts at 1, so that an override "starttime: 0" (r2) is a falsy value that differs from the model's
+RS = {"r0": (1.0, 5.0, 1.0), "r1": (1.0, 3.0, 0.5), "r2": (0.0, 2.0, 0.25), "r3": (2.0, 6.0, 2.0)}
 EQS = ["s", "f", "k", "lk"]
 
 
@@ -146,9 +147,11 @@ class World:
         elif op == "Begin":
             sc = b.get_scenario(h["m"], h["sc"])
             st = self.settings(h)
-            b.begin_session(scenarios=[h["sc"]], scenario_managers=[h["m"]], equations=EQS,
+            sibs = sorted(h.get("sibs") or [])
+            b.begin_session(scenarios=[h["sc"]] + sibs, scenario_managers=[h["m"]], equations=EQS,
                             settings=({h["m"]: {h["sc"]: st}} if st else {}), dt=None)
             self.steps = (h["m"], h["sc"], [])
+            self.sib_steps = {y: [] for y in sibs}
         elif op == "Step":
             m, sc, log = self.steps
             st = self.settings(h)
@@ -167,6 +170,22 @@ class World:
             bad = same(res[m][sc], exp)
             if bad:
                 return ("run_step %d of %s/%s (settings so far %s)" % (len(log), m, sc, log), exp, bad)
+            # the other scenarios of the session: each is stepped with its own settings, whatever sc was sent
+            sib_eff = h.get("sibs") if isinstance(h.get("sibs"), dict) else {}
+            for y, eff in sib_eff.items():
+                ylog = self.sib_steps[y]
+                ylog.append((eff["k"], eff["tab"]))
+                ys, yexp = 0.0, None
+                for i, (k, tab) in enumerate(ylog):
+                    t = start + i * dt
+                    lk = lookup(t, TABS[tab])
+                    yexp = {"s": {t: ys}, "k": {t: float(k)}, "lk": {t: lk}, "f": {t: max(0.0, k + lk)}}
+                    ys = ys + dt * max(0.0, k + lk)
+                if y not in res.get(m, {}):
+                    return ("run_step %d: scenario %s/%s of the session is missing from the result" % (len(log), m, y), yexp, list(res.get(m, {})))
+                bad = same(res[m][y], yexp)
+                if bad:
+                    return ("run_step %d: scenario %s/%s stepped alongside %s (which got %s)" % (len(log), m, y, sc, log), yexp, bad)
         elif op == "End":
             b.end_session()
             self.steps = None
@@ -204,13 +223,13 @@ def ref_stmx():
          '\t\t\t<aux name="lk">\n\t\t\t\t<eqn>TIME</eqn>\n\t\t\t\t<gf>\n\t\t\t\t\t<xscale min="0" max="10"/>\n\t\t\t\t\t<ypts>0,10</ypts>\n\t\t\t\t</gf>\n\t\t\t</aux>\n',
          '\t\t\t<flow name="f">\n\t\t\t\t<eqn>k+lk</eqn>\n\t\t\t\t<non_negative/>\n\t\t\t</flow>\n',
          '\t\t\t<stock name="s">\n\t\t\t\t<eqn>0</eqn>\n\t\t\t\t<inflow>f</inflow>\n\t\t\t</stock>\n']
-    return X.document("ref", v, start="0", stop="4", dt="<dt>1</dt>")
+    return X.document("ref", v, start="1", stop="5", dt="<dt>1</dt>")
 
 
 class FileWorld(World):
     """registration ops at the head of the history are written as scenario files before bptk() is constructed"""
 
-    def __init__(self, hist, workdir):
+    def __init__(self, hist, workdir, layout="split"):
         import os
         self.BPTK_Py = use_repo()
         self.base = base_model()          # only used for the base probe (never registered here)
@@ -235,8 +254,12 @@ class FileWorld(World):
         for m, d in mgrs.items():
             head = {"source": "simulation_models/ref.stmx", "model": "simulation_models/ref_%s" % m}
             names = sorted(d["scenarios"])
-            f1[m] = dict(head, scenarios={n: d["scenarios"][n] for n in names[::2]})
-            f2[m] = dict(head, scenarios={n: d["scenarios"][n] for n in names[1::2]})
+            if layout == "single":      # all scenarios of a manager in one file (they are then instantiated in one pass)
+                f1[m] = dict(head, scenarios={n: d["scenarios"][n] for n in names})
+                f2[m] = dict(head, scenarios={})
+            else:
+                f1[m] = dict(head, scenarios={n: d["scenarios"][n] for n in names[::2]})
+                f2[m] = dict(head, scenarios={n: d["scenarios"][n] for n in names[1::2]})
             if d["bk"] > 0: f1[m]["base_constants"] = {"k": float(d["bk"])}
             if d["bt"] != "": f2[m]["base_points"] = {"lk": [list(p) for p in TABS[d["bt"]]]}
         with open(os.path.join(workdir, "scenarios", "a_base.json"), "w") as f:
@@ -283,14 +306,14 @@ class FileWorld(World):
         return None
 
 
-def replay_files(hist):
+def replay_files(hist, layout="split"):
     import os, sys, tempfile, shutil
     wd = tempfile.mkdtemp(prefix="vscn_")
     old = os.getcwd()
     os.chdir(wd)
     w = None
     try:
-        w = FileWorld(hist, wd)
+        w = FileWorld(hist, wd, layout)
         for n, h in enumerate(hist):
             try:
                 bad = w.apply(h)
@@ -298,7 +321,7 @@ def replay_files(hist):
                 bad = ("exception in %s (file channel)" % h["op"], "no exception", "%s: %s" % (type(e).__name__, str(e)[:200]))
             if bad:
                 return {"step": n, "op": {a: b for a, b in h.items() if a not in ("all", "base")}, "clause": bad[0], "expected": bad[1], "observed": bad[2],
-                        "channel": "scenario files + XMILE source",
+                        "channel": "scenario files (%s layout) + XMILE source" % layout,
                         "prefix": [{a: b for a, b in x.items() if a not in ("all", "base")} for x in hist[:n + 1]]}
         return None
     finally:
